@@ -280,8 +280,8 @@ func runC01(h *H) {
 				continue
 			}
 			rows := c01RowCounts[h.R.Intn(len(c01RowCounts))]
-			if h.Tier == "thorough" && h.R.Intn(20) == 0 {
-				rows = []int{1000, 65534, 65535, 65536, 65537}[h.R.Intn(5)]
+			if h.Tier == "thorough" && h.R.Intn(40) == 0 {
+				rows = []int{1000, 4096}[h.R.Intn(2)] // the 65534..65537 dictionary boundary is covered once per run below
 			}
 			c := c01One(h, s, rows, true)
 			n++
